@@ -385,6 +385,10 @@ func RunConc(id int, o ConcOptions) (*ConcTrace, error) {
 			if active[k] {
 				op.op = "unsub"
 				active[k] = false
+			} else if len(ss.prog) > 0 && rng.Intn(4) == 0 {
+				// a client that unsubscribes from a fixed list: the name is not subscribed on this connection (another
+				// connection may be its only subscriber).  Notify: Cancels = 0, nobody's subscription changes.
+				op.op = "unsub"
 			} else {
 				op.op = "sub"
 				active[k] = true
